@@ -32,6 +32,8 @@ def code_list(tier):
         ({"family": "hamming", "mu": 3, "extended": False, "info": "left"}, ["syndrome", "ml", "bp", "minsum"]),
         ({"family": "hamming", "mu": 3, "extended": False, "info": "right"}, ["syndrome", "bp"]),
         ({"family": "hamming", "mu": 3, "extended": True, "info": "left"}, ["syndrome", "ml"]),
+        ({"family": "hamming", "mu": 3, "extended": False, "info": [1, 2, 3, 4]}, ["syndrome", "ml", "bp"]),
+        ({"family": "systematic", "P": [[1, 1, 0], [0, 1, 1], [1, 0, 1], [1, 1, 1]], "info": [3, 2, 1, 0]}, ["syndrome", "ml"]),
         ({"family": "repetition", "n": 3}, ["syndrome", "ml", "bp"]),
         ({"family": "repetition", "n": 5}, ["ml"]),
         ({"family": "spc", "k": 4}, ["wagner", "ml", "bp"]),
